@@ -60,7 +60,10 @@ class StochasticGame:
         """
         transitions = 0
         for state_transitions in self.transition_list:
-            transitions += len(state_transitions)
+            # a state given without a transition list (None, as in a game that is
+            # missing transitions) has nothing to count; solve() reports it
+            if isinstance(state_transitions, (list, tuple)):
+                transitions += len(state_transitions)
         return transitions
 
     def init_states(self):
